@@ -363,6 +363,225 @@ EXPLANATION = ('the model is not hand-written: it is re-extracted from the clang
                'so traces_validated_against_impl is 0 by construction; obligations/discharged count the additional dataflow and constant rules')
 
 
+def _err_nonzero_sense(cond):
+    """for a branch condition that tests the error field against 'none': the
+    sense (True/False) of the edge on which the field is known non-zero"""
+    e = strip_expect(cond)
+    neg = False
+    while e is not None and e.get('k') == 'un' and e['op'] == '!':
+        neg = not neg
+        e = strip_expect(e['e'])
+    if e is None:
+        return None
+    if is_this_member(e, 'err_'):
+        return not neg
+    if e.get('k') == 'bin' and e['op'] in ('!=', '=='):
+        l, r = e['l'], e['r']
+        for a, b in ((l, r), (r, l)):
+            if is_this_member(a, 'err_') and cval(b) == 0:
+                return (e['op'] == '!=') != neg
+    return None
+
+
+def clause_first_error(facts, rep):
+    """'the code ... naming the fault class' / anchors: err_ is the first error seen.
+    On every path on which the error field is already known non-zero (the edge of a
+    test of the field) no further store to the field is reachable: the class set by
+    the sub-parser (infinity, unescaped, escape format, unicode) is what is reported."""
+    guards = 0
+    for f in facts.functions:
+        if f.cls_qn != PARSER:
+            continue
+        for b in f.d.get('blocks', []):
+            t = b.get('term')
+            if not t or t.get('cond') is None or len(b['succs']) != 2:
+                continue
+            sense = _err_nonzero_sense(t['cond'])
+            if sense is None:
+                continue
+            guards += 1
+            rep.fn(f)
+            start = b['succs'][0] if sense else b['succs'][1]
+            seen, work, bad = set(), [start], None
+            while work and bad is None:
+                x = work.pop()
+                if x is None or x in seen:
+                    continue
+                seen.add(x)
+                blk = f.blocks[x]
+                for st in blk['stmts']:
+                    for e in walk(st):
+                        if e.get('k') == 'bin' and e['op'] == '=' and is_this_member(e['l'], 'err_'):
+                            bad = (st, e)
+                            break
+                    if bad:
+                        break
+                work.extend(blk['succs'])
+            line = locline((t['cond'] or {}).get('loc', f.d['loc']))
+            rep.check(bad is None, 'E1.first-error', f.qn, 'error already set at line %s' % line,
+                      line,
+                      'a store to the error field is reachable after the field was found non-zero: %s' % (show(bad[1]) if bad else ''),
+                      facts.config)
+    rep.require(guards >= 8, 'C01.first-error: %d tests of the error field in Parser (>= 8 expected)' % guards)
+
+
+def clause_error_sticky(facts, rep):
+    """the error field is sticky across the whole Parser family: between the reset at the public entry and the
+    result, every store to the field -- including the redundant 'no error' store that ends a successful number --
+    happens where the field is known to be zero (Must token Z: reset, zero-edge of a test of the field, return from
+    a callee that leaves it zero) or before any sub-parser ran (FRESH). A sub-parser that reports a fault only
+    through the field must therefore be followed by a test of the field before the next sub-parser can clear it:
+    otherwise an invalid text is accepted with code none."""
+    fam = {f.id: f for f in facts.functions if f.cls_qn == PARSER}
+    rep.require(len(fam) >= 12, 'C01.sticky: Parser family has %d functions (>= 12 expected)' % len(fam))
+
+    setters = {}
+    for f in fam.values():
+        body = [x for _, _, x in f.stmts()]
+        if len(body) == 1:
+            b0 = strip(body[0])
+            if b0.get('k') == 'bin' and b0['op'] == '=' and is_this_member(b0['l'], 'err_'):
+                r = strip(b0['r'])
+                if r.get('k') == 'ref' and r.get('dk') == 'param':
+                    for idx, p_ in enumerate(f.params):
+                        if p_['id'] == r['id']:
+                            setters[f.id] = idx
+
+    class _St(dict):
+        pass
+
+    def stores(s):
+        """stores to the error field in statement s, direct or through the one-line setter: nodes with key 'r'"""
+        for e in walk(s):
+            if e.get('k') == 'bin' and e['op'] == '=' and is_this_member(e['l'], 'err_'):
+                yield e
+            elif e.get('k') == 'call' and e.get('cid') in setters and len(e.get('args', [])) > setters[e['cid']]:
+                yield _St(k='setter', r=e['args'][setters[e['cid']]], loc=e['loc'], call=e)
+
+    def ext_writer(e):
+        if e.get('k') != 'call' or e.get('cid') in fam:
+            return False
+        cal = facts.by_id.get(e.get('cid'))
+        for n, a in enumerate(e.get('args', [])):
+            if a.get('k') == 'member' and is_this_member(a, 'err_'):
+                t = cal.params[n]['t'] if cal is not None and n < len(cal.params) else '&'
+                if '&' in t and 'const' not in t:
+                    return True
+        return False
+
+    callees = {}
+    for f in fam.values():
+        cs = set()
+        for bid, i, s, e in f.walk():
+            if e.get('k') == 'call' and e.get('cid') in fam:
+                cs.add(e['cid'])
+        callees[f.id] = cs
+    order, state = [], {}
+
+    def visit(x):
+        if state.get(x) == 2:
+            return
+        if state.get(x) == 1:
+            raise AnalysisBroken('C01.sticky: recursion in the Parser family at %s' % fam[x].name)
+        state[x] = 1
+        for y in callees[x]:
+            visit(y)
+        state[x] = 2
+        order.append(x)
+    for x in fam:
+        visit(x)
+    called = set().union(*callees.values()) if callees else set()
+    writer, needs, exitz = {}, {}, {}
+    nstores = ncalls = 0
+    for fid in order:
+        f = fam[fid]
+        if fid in setters:
+            writer[fid], needs[fid], exitz[fid] = False, False, (False, True)
+            continue
+        w = False
+        for bid, i, s, e in f.walk():
+            if e.get('k') == 'call' and (ext_writer(e) or writer.get(e.get('cid'))):
+                w = True
+        for bid, i, s in f.stmts():
+            for e in stores(s):
+                if cval(e['r']) != 0:
+                    w = True
+        writer[fid] = w
+
+        def kill_stmt(s):
+            for e in walk(s):
+                if e.get('k') == 'call':
+                    if ext_writer(e):
+                        return ('Z', 'FRESH')
+                    c = e.get('cid')
+                    if c in fam and writer[c] and not exitz[c][1]:
+                        return ('Z', 'FRESH')
+                    if c in fam and writer[c]:
+                        return ('FRESH',)
+            for e in stores(s):
+                if cval(e['r']) != 0:
+                    return ('Z', 'FRESH')
+            return ()
+
+        def gen_stmt(s):
+            out = set()
+            for e in walk(s):
+                if e.get('k') == 'call' and e.get('cid') in fam and exitz[e['cid']][0]:
+                    out.add('Z')
+            for e in stores(s):
+                if cval(e['r']) == 0:
+                    out.add('Z')
+            return out
+
+        def gen_edge(b, cond, sense):
+            ns = _err_nonzero_sense(cond)
+            if ns is not None and sense in (True, False) and sense != ns:
+                return ('Z',)
+            return ()
+        entry_fn = fid not in called
+        res = {}
+        for ent in (frozenset(), frozenset(['Z'])):
+            ent2 = ent | (frozenset(['FRESH']) if entry_fn else frozenset())
+            m = Must(f, gen_stmt=gen_stmt, kill_stmt=kill_stmt, gen_edge=gen_edge, entry=ent2)
+            bad = []
+            for bid, i, s in f.stmts():
+                st = m.at(bid, i)
+                if st is None:
+                    continue
+                # obligations inside this statement: stores, and calls of callees that need Z at entry
+                # only a store that can clear the field is an obligation here (constant 0 or a computed value);
+                # replacing one fault class by another on a guarded path is the business of E1.first-error
+                obs = [('store', e) for e in stores(s) if cval(e['r']) in (0, None)]
+                obs += [('call', e) for e in walk(s) if e.get('k') == 'call' and needs.get(e.get('cid'))]
+                for kind, e in obs:
+                    if not (st & {'Z', 'FRESH'}):
+                        bad.append((kind, e))
+            ex = m.IN.get(f.exit)
+            res[bool(ent)] = (bad, ex is None or 'Z' in ex)
+        exitz[fid] = (res[False][1], res[True][1])
+        hard = res[True][0]
+        soft = [b for b in res[False][0]]
+        needs[fid] = bool(soft) and not entry_fn
+        rep.fn(f)
+        for bid, i, s in f.stmts():
+            nstores += len(list(stores(s)))
+        hard_ids = set(id(e) for _, e in hard)
+        for kind, e in (soft if entry_fn else hard):
+            pass
+        viol = soft if entry_fn else hard
+        for kind, e in viol:
+            rep.check(False, 'E1.error-sticky', f.qn, '%s %s' % (kind, show(e.get('call', e))), locline(e['loc']),
+                      'the error field is not known to be zero here (a fault reported by an earlier sub-parser can be overwritten or cleared): test the field first',
+                      facts.config)
+        if not viol:
+            n = sum(1 for bid, i, s in f.stmts() for _ in stores(s)) + sum(1 for bid, i, s, e in f.walk() if e.get('k') == 'call' and needs.get(e.get('cid')))
+            if n:
+                ncalls += n
+                rep.check(True, 'E1.error-sticky', f.qn, '%d stores / calls of clearing sub-parsers' % n, f.loc, '', facts.config)
+    rep.require(nstores >= 10 and sum(1 for v in needs.values() if v) >= 3,
+                'C01.sticky: %d stores to the error field, %d functions that need it zero at entry' % (nstores, sum(1 for v in needs.values() if v)))
+
+
 def run(rep, tier):
     from . import c01_number
     configs = ['K1'] if tier == 'quick' else ['K1', 'K3', 'K4', 'K7']
@@ -377,6 +596,8 @@ def run(rep, tier):
         vl = c02.widest_load(facts, ('quote.inc.h',))
         c02.clause_d(facts, rep, w, vl)
         clause_e(facts, rep)
+        clause_first_error(facts, rep)
+        clause_error_sticky(facts, rep)
         from .. import ws_table
         ws_table.check(facts, rep)
         # 'a number whose magnitude overflows double is rejected': shared with C04 clause (e)
